@@ -591,3 +591,88 @@ func threeWayDirection(w *World, fn *ssa.Function) (dir, field, why string) {
 	}
 	return "", "", "three-way comparator is not a strict ordering on one projection"
 }
+
+// capturedValue: v is a load of a variable captured by a closure, the variable is written exactly once (in the function
+// that declares it, before the closure is made) and never through any closure: the value written. Otherwise v itself.
+// (`hasText := len(s.text) > 0` computed once and tested inside goroutine bodies.)
+func capturedValue(v ssa.Value) ssa.Value {
+	ld, ok := v.(*ssa.UnOp)
+	if !ok || ld.Op != token.MUL {
+		return v
+	}
+	var cell *ssa.Alloc
+	var made ssa.Instruction
+	switch x := ld.X.(type) {
+	case *ssa.FreeVar:
+		fn := x.Parent()
+		idx := -1
+		for i, f := range fn.FreeVars {
+			if f == x {
+				idx = i
+			}
+		}
+		parent := fn.Parent()
+		if idx < 0 || parent == nil {
+			return v
+		}
+		allInstrs(parent, func(in ssa.Instruction) {
+			if mc, ok := in.(*ssa.MakeClosure); ok && mc.Fn == ssa.Value(fn) && idx < len(mc.Bindings) {
+				if a, isA := mc.Bindings[idx].(*ssa.Alloc); isA {
+					cell, made = a, mc
+				}
+			}
+		})
+	case *ssa.Alloc:
+		// the declaring function reads the captured variable from its cell as well
+		if !x.Heap {
+			return v
+		}
+		cell, made = x, ld
+	}
+	if cell == nil || cell.Referrers() == nil {
+		return v
+	}
+	var store *ssa.Store
+	for _, ref := range *cell.Referrers() {
+		switch x := ref.(type) {
+		case *ssa.Store:
+			if x.Addr != ssa.Value(cell) || store != nil {
+				return v
+			}
+			store = x
+		case *ssa.UnOp:
+			if x.Op != token.MUL {
+				return v
+			}
+		case *ssa.MakeClosure:
+			// no closure may write the cell
+			cf, _ := x.Fn.(*ssa.Function)
+			if cf == nil {
+				return v
+			}
+			for i, b := range x.Bindings {
+				if b != ssa.Value(cell) || i >= len(cf.FreeVars) || cf.FreeVars[i].Referrers() == nil {
+					continue
+				}
+				for _, r2 := range *cf.FreeVars[i].Referrers() {
+					if u, isLoad := r2.(*ssa.UnOp); !isLoad || u.Op != token.MUL {
+						return v
+					}
+				}
+			}
+		case *ssa.DebugRef:
+		default:
+			return v
+		}
+	}
+	if store == nil || !domInstr(store, made) {
+		return v
+	}
+	return store.Val
+}
+
+// isNilConst: the untyped-nil constant of a pointer / slice / map / interface type.
+func isNilConst(v ssa.Value) bool {
+	k, ok := v.(*ssa.Const)
+	return ok && k.IsNil()
+}
